@@ -10,7 +10,7 @@ from worlds import GenomeWorld
 import dbutil
 
 PROPS = ('GambitV.Props.C08', 'GambitV.C08')
-TIE = [('GambitV.Tie.PyLabels', 'GambitV.Tie.Py'), ('GambitV.Tie.PyCalcFiles', 'GambitV.Tie.Py'), ('GambitV.Tie.PyCalcFile', 'GambitV.Tie.Py'), ('GambitV.Tie.PySeqFiles', 'GambitV.Tie.Py'), ('GambitV.Tie.PyIoFlow', 'GambitV.Tie.Py'), ('GambitV.Tie.PyQueryParse', 'GambitV.Tie.Py')]
+TIE = [('GambitV.Tie.PyLabels', 'GambitV.Tie.Py'), ('GambitV.Tie.PyCalcFiles', 'GambitV.Tie.Py'), ('GambitV.Tie.PyCalcFile', 'GambitV.Tie.Py'), ('GambitV.Tie.PySeqFiles', 'GambitV.Tie.Py'), ('GambitV.Tie.PyIoFlow', 'GambitV.Tie.Py'), ('GambitV.Tie.PyQueryParse', 'GambitV.Tie.Py'), ('GambitV.Tie.PySigClasses', 'GambitV.Tie.Py')]
 RULE = ('(batch of query genomes, order, input channel in {positional, list file + --ldir, pre-computed signature file}, gzip twin or not, output format in '
         '{csv, json, archive}, progress on/off, -c in {none,1,2,4}); plus library-level query() with reference chunk sizes 1..n+1. For every genome the row the real '
         'CLI prints for that genome ALONE (positional, same format) is recorded; every batch must print exactly (label_i, that row) in input order. Labels are '
